@@ -1197,6 +1197,9 @@ public:
 
     // Assign ghost variables to ref
     ghost_variables_t ref_gvars = get_or_insert_gvars(ref);
+    // ref is redefined: its old address (and any relationship with
+    // other references) does not hold anymore.
+    ref_gvars.forget(m_base_dom);
 
     // initialize ghost variables
     if (ref_gvars.has_offset_and_size()) {
